@@ -345,6 +345,9 @@ def r4_alphabet(ctx):
 from .c02 import r6_field_table as _column_count            # a line with another column count makes the start/end table ragged: reshape(-1, n) raises
 from .c18 import r5_missing_shortcut as _missing_shortcut   # a junk value in an optional numeric column reaches the parser
 
+from ..through_time import make_rule as _mk_tt
+_through_time = _mk_tt("C15")
+
 RULES = [
     ("C15-R1", r1_offset_exactly_once),
     ("C15-R2", r2_validation_on_construction),
@@ -352,4 +355,5 @@ RULES = [
     ("C15-R4", r4_alphabet),
     ("C15-R5", _column_count),
     ("C15-R6", _missing_shortcut),
+    ("C15-T1", _through_time),
 ]
